@@ -28,12 +28,12 @@ static void put_symbolic_decimal(State &S, SBytes &out, const Val &v0, bool is_l
     nd++; if (p > ~0ULL / 10) break; p *= 10;
   }
   if (neg) out.push_back(mk('-', 8));
-  u64 div = 1; for (unsigned i = 1; i < nd; i++) div *= 10;
-  for (unsigned i = 0; i < nd; i++, div /= 10) {
-    Val q = binop(S, Instruction::UDiv, mag, mk(div, w), w, nullptr);
-    Val d = binop(S, Instruction::URem, q, mk(10, w), w, nullptr);
-    Val b = binop(S, Instruction::Add, truncv(d, 8), mk('0', 8), 8, nullptr);
-    out.push_back(b);
+  // the digits themselves are over-approximated: fresh bytes in '0'..'9' (leading digit non-zero when there are several)
+  static u64 fresh = 0;
+  for (unsigned i = 0; i < nd; i++) {
+    z3::expr d = Z.bv_const(("digit!" + std::to_string(fresh++)).c_str(), 8);
+    addpc(S, z3::uge(d, Z.bv_val((i == 0 && nd > 1) ? '1' : '0', 8)) && z3::ule(d, Z.bv_val('9', 8)));
+    out.push_back(mks(d, 8));
   }
 }
 // printf-style formatting; args are 64-bit slots
@@ -231,6 +231,7 @@ bool extcall(State &S, DInst &D, const std::string &n, std::vector<Val> &a) {
     if (lo > hi) throw PathEnd{"assume-false", ""};
     if (lo == hi) { S.pinned.insert(S.inputs.size() - 1); S.pins.push_back({v, Z.bv_val((int)lo, 32)}); addpc(S, v == Z.bv_val((int)lo, 32)); ret(mk((u64)lo, 32)); return false; }
     addpc(S, v >= Z.bv_val((int)lo, 32) && v <= Z.bv_val((int)hi, 32));
+    S.lastrange_id = v.id(); S.lastrange_lo = lo; S.lastrange_hi = hi; S.lastrange_input = S.inputs.size() - 1;
     ret(mks(v, 32)); return false;
   }
   if (n == "sx_bytes") {
@@ -238,7 +239,26 @@ bool extcall(State &S, DInst &D, const std::string &n, std::vector<Val> &a) {
     for (u64 i = 0; i < k; i++) { Input &in = newinput(S, nm, 8); storev(S, p + i, mks(in.var, 8), 1); }
     return false;
   }
-  if (n == "sx_concretize" || n == "sx_concretize_long") { check_args_defined(a, n); ret(mk(concfork(S, a[0], "sx_concretize"), a[0].w)); return false; }
+  if (n == "sx_concretize" || n == "sx_concretize_long") {
+    check_args_defined(a, n);
+    if (a[0].sym() && a[0].e->id() == S.lastrange_id && S.lastrange_hi - S.lastrange_lo < 4096 && !S.pinned.count(S.lastrange_input)) {
+      // sx_choice: the variable was created by the immediately preceding sx_range and is constrained by nothing else:
+      // every value of the range is feasible, enumerate without solver queries
+      z3::expr var = *a[0].e; i64 lo = S.lastrange_lo, hi = S.lastrange_hi; size_t idx = S.lastrange_input;
+      S.lastrange_id = 0; S.nocache();
+      for (i64 v = hi; v > lo; v--) {
+        st.forks++;
+        State o = S; o.id = ++st.paths; o.forks = S.forks + 1; o.mdl.reset();
+        z3::expr val = Z.bv_val((int)v, 32);
+        o.pc.push_back(var == val); o.pinned.insert(idx); o.pins.push_back({var, val});
+        work.push_back(std::move(o));
+      }
+      z3::expr val = Z.bv_val((int)lo, 32);
+      S.pc.push_back(var == val); S.pinned.insert(idx); S.pins.push_back({var, val}); S.mdl.reset(); S.forks++;
+      ret(mk((u64)lo, 32)); return false;
+    }
+    ret(mk(concfork(S, a[0], "sx_concretize"), a[0].w)); return false;
+  }
   if (n == "sx_assume") { check_args_defined(a, n); if (!branch(S, icmp(CmpInst::ICMP_NE, a[0], mk(0, a[0].w)))) throw PathEnd{"assume-false", ""}; return false; }
   if (n == "sx_end_path") throw PathEnd{"ended", ""};
   if (n == "sx_assert") {
